@@ -49,6 +49,7 @@ type coreScript struct {
 	Layouts    []string      `json:"layouts"`
 	OptLists   [][]coreOpt   `json:"opt_lists"`
 	Customs    []customLevel `json:"customs"`
+	FailSets   [][][]int     `json:"fail_sets"` // each: list of [phase, writer, occurrence]
 	Behaviours [][]coreEvent `json:"behaviours"`
 }
 
@@ -305,6 +306,8 @@ func (r *coreRun) exec(ev coreEvent) (rec map[string]any) {
 		slog.SetLevel(slog.Level(ev.A))
 	case "SetDefault":
 		slog.SetDefault(l)
+	case "LogF":
+		r.logF(l, ev, rec)
 	default:
 		panic("unknown op " + ev.Op)
 	}
@@ -445,3 +448,53 @@ func (r *coreRun) observe(rec map[string]any) {
 }
 
 var _ io.Writer = (*plainW)(nil)
+
+const diagMarker = "slog print log failed"
+
+// logF issues one record of severity ev.A while the recording writers fail exactly the attempts
+// named by fault assignment ev.B: [phase, writer, occurrence] with phase 1 = the record itself,
+// 2 = the diagnostic warning about a failed write.  Reported: every Write attempt seen.
+func (r *coreRun) logF(l *slog.Entry, ev coreEvent, rec map[string]any) {
+	fails := map[[3]int]bool{}
+	if ev.B >= 1 && ev.B <= len(r.sc.FailSets) {
+		for _, f := range r.sc.FailSets[ev.B-1] {
+			fails[[3]int{f[0], f[1], f[2]}] = true
+		}
+	}
+	occ := map[[2]int]int{}
+	attempts := 0
+	phaseOf := func(p []byte) int {
+		if strings.Contains(string(p), diagMarker) {
+			return 2
+		}
+		return 1
+	}
+	takeAll()
+	sink.failP = func(w int, p []byte) bool {
+		attempts++
+		ph := phaseOf(p)
+		occ[[2]int{ph, w}]++
+		if attempts > 60 { // a runaway cascade is cut here and shows up as surplus attempts
+			return false
+		}
+		return fails[[3]int{ph, w, occ[[2]int{ph, w}]}]
+	}
+	outcome := "ret"
+	func() {
+		defer func() {
+			if p := recover(); p != nil {
+				outcome = "panic: " + fmt.Sprint(p)
+			}
+		}()
+		l.Logit(bg, slog.Level(ev.A), "fault probe", "k01", 1)
+	}()
+	sink.failP = nil
+	evs := []map[string]any{}
+	for _, e := range takeAll() {
+		if e.K == "w" {
+			evs = append(evs, map[string]any{"w": e.W, "ph": phaseOf(e.payload), "fail": e.Fail})
+		}
+	}
+	rec["evs"] = evs
+	rec["outcome"] = outcome
+}
